@@ -127,6 +127,8 @@ package uhppote
 //@   params u, controllerID, readers
 //@   returns (ok, err)
 //@   requires client: u != nil && u.driver != nil
+//@   attr noaxioms = time.
+//@   attr opaque = bcd.
 //@   modifies sent.n, sent.kind, sent.iplen, sent.ipb, sent.port, sent.bytes, recv.n, recv.len, recv.bytes
 //@   define N0 = old(sent.n)
 //@   define B = sent.bytes[N0]
@@ -142,6 +144,8 @@ package uhppote
 //@   params u, deviceID, task
 //@   returns (ok, err)
 //@   requires client: u != nil && u.driver != nil
+//@   attr noaxioms = time.
+//@   attr opaque = bcd.
 //@   modifies sent.n, sent.kind, sent.iplen, sent.ipb, sent.port, sent.bytes, recv.n, recv.len, recv.bytes
 //@   define N0 = old(sent.n)
 //@   define B = sent.bytes[N0]
@@ -157,6 +161,8 @@ package uhppote
 //@   params u, deviceID
 //@   returns (ok, err)
 //@   requires client: u != nil && u.driver != nil
+//@   attr noaxioms = time.
+//@   attr opaque = bcd.
 //@   modifies sent.n, sent.kind, sent.iplen, sent.ipb, sent.port, sent.bytes, recv.n, recv.len, recv.bytes
 //@   define N0 = old(sent.n)
 //@   define B = sent.bytes[N0]
@@ -172,6 +178,8 @@ package uhppote
 //@   params u, deviceID
 //@   returns (ok, err)
 //@   requires client: u != nil && u.driver != nil
+//@   attr noaxioms = time.
+//@   attr opaque = bcd.
 //@   modifies sent.n, sent.kind, sent.iplen, sent.ipb, sent.port, sent.bytes, recv.n, recv.len, recv.bytes
 //@   define N0 = old(sent.n)
 //@   define B = sent.bytes[N0]
@@ -187,6 +195,8 @@ package uhppote
 //@   params u, deviceID
 //@   returns (ok, err)
 //@   requires client: u != nil && u.driver != nil
+//@   attr noaxioms = time.
+//@   attr opaque = bcd.
 //@   modifies sent.n, sent.kind, sent.iplen, sent.ipb, sent.port, sent.bytes, recv.n, recv.len, recv.bytes
 //@   define N0 = old(sent.n)
 //@   define B = sent.bytes[N0]
@@ -202,6 +212,8 @@ package uhppote
 //@   params u, deviceID
 //@   returns (ok, err)
 //@   requires client: u != nil && u.driver != nil
+//@   attr noaxioms = time.
+//@   attr opaque = bcd.
 //@   modifies sent.n, sent.kind, sent.iplen, sent.ipb, sent.port, sent.bytes, recv.n, recv.len, recv.bytes
 //@   define N0 = old(sent.n)
 //@   define B = sent.bytes[N0]
@@ -217,6 +229,8 @@ package uhppote
 //@   params u, controller
 //@   returns (ok, err)
 //@   requires client: u != nil && u.driver != nil
+//@   attr noaxioms = time.
+//@   attr opaque = bcd.
 //@   modifies sent.n, sent.kind, sent.iplen, sent.ipb, sent.port, sent.bytes, recv.n, recv.len, recv.bytes
 //@   define N0 = old(sent.n)
 //@   define B = sent.bytes[N0]
@@ -232,6 +246,8 @@ package uhppote
 //@   params u, deviceID, cardNumber
 //@   returns (ok, err)
 //@   requires client: u != nil && u.driver != nil
+//@   attr noaxioms = time.
+//@   attr opaque = bcd.
 //@   modifies sent.n, sent.kind, sent.iplen, sent.ipb, sent.port, sent.bytes, recv.n, recv.len, recv.bytes
 //@   define N0 = old(sent.n)
 //@   define B = sent.bytes[N0]
@@ -247,6 +263,8 @@ package uhppote
 //@   params u, deviceID
 //@   returns (n, err)
 //@   requires client: u != nil && u.driver != nil
+//@   attr noaxioms = time.
+//@   attr opaque = bcd.
 //@   modifies sent.n, sent.kind, sent.iplen, sent.ipb, sent.port, sent.bytes, recv.n, recv.len, recv.bytes
 //@   define N0 = old(sent.n)
 //@   define B = sent.bytes[N0]
@@ -262,6 +280,8 @@ package uhppote
 //@   params u, deviceID
 //@   returns (res, err)
 //@   requires client: u != nil && u.driver != nil
+//@   attr noaxioms = time.
+//@   attr opaque = bcd.
 //@   modifies sent.n, sent.kind, sent.iplen, sent.ipb, sent.port, sent.bytes, recv.n, recv.len, recv.bytes
 //@   define N0 = old(sent.n)
 //@   define B = sent.bytes[N0]
@@ -277,6 +297,8 @@ package uhppote
 //@   params u, serialNumber
 //@   returns (res, err)
 //@   requires client: u != nil && u.driver != nil
+//@   attr noaxioms = time.
+//@   attr opaque = bcd.
 //@   modifies sent.n, sent.kind, sent.iplen, sent.ipb, sent.port, sent.bytes, recv.n, recv.len, recv.bytes
 //@   define N0 = old(sent.n)
 //@   define B = sent.bytes[N0]
@@ -285,13 +307,15 @@ package uhppote
 //@   ensures once:   !(serialNumber == 0) ==> sent.n == N0 + 1
 //@   ensures wire:   !(serialNumber == 0) ==> wire.header(B, 0x32, serialNumber) && wire.zero(B, 8, 64)
 //@   ensures route:  !(serialNumber == 0) ==> routed(u, serialNumber, N0)
-//@   ensures accept: err == nil ==> accepted(N0, 0x32, serialNumber)
-//@   ensures result: err == nil ==> res != nil && res.SerialNumber == serialNumber
+//@   ensures accept: err == nil ==> accepted(N0, 0x32, serialNumber) && wire.rdtOK(R, 8)
+//@   ensures result: err == nil ==> res != nil && res.SerialNumber == serialNumber && wire.rdatetime(R, 8, res.DateTime.abs, res.DateTime.ns, res.DateTime.loc)
 
 //@ func (*uhppote).SetTime
 //@   params u, serialNumber, datetime
 //@   returns (res, err)
 //@   requires client: u != nil && u.driver != nil
+//@   attr noaxioms = time.
+//@   attr opaque = bcd.
 //@   modifies sent.n, sent.kind, sent.iplen, sent.ipb, sent.port, sent.bytes, recv.n, recv.len, recv.bytes
 //@   define N0 = old(sent.n)
 //@   define B = sent.bytes[N0]
@@ -300,13 +324,15 @@ package uhppote
 //@   ensures once:   !(serialNumber == 0) && 0 <= time.year(datetime.abs, datetime.loc) && time.year(datetime.abs, datetime.loc) <= 9999 ==> sent.n == N0 + 1
 //@   ensures wire:   !(serialNumber == 0) && 0 <= time.year(datetime.abs, datetime.loc) && time.year(datetime.abs, datetime.loc) <= 9999 ==> wire.header(B, 0x30, serialNumber) && wire.datetime(B, 8, datetime.abs, datetime.loc) && wire.zero(B, 15, 64)
 //@   ensures route:  !(serialNumber == 0) && 0 <= time.year(datetime.abs, datetime.loc) && time.year(datetime.abs, datetime.loc) <= 9999 ==> routed(u, serialNumber, N0)
-//@   ensures accept: err == nil ==> accepted(N0, 0x30, serialNumber)
-//@   ensures result: err == nil ==> res != nil && res.SerialNumber == serialNumber
+//@   ensures accept: err == nil ==> accepted(N0, 0x30, serialNumber) && wire.rdtOK(R, 8)
+//@   ensures result: err == nil ==> res != nil && res.SerialNumber == serialNumber && wire.rdatetime(R, 8, res.DateTime.abs, res.DateTime.ns, res.DateTime.loc)
 
 //@ func (*uhppote).OpenDoor
 //@   params u, deviceID, door
 //@   returns (res, err)
 //@   requires client: u != nil && u.driver != nil
+//@   attr noaxioms = time.
+//@   attr opaque = bcd.
 //@   modifies sent.n, sent.kind, sent.iplen, sent.ipb, sent.port, sent.bytes, recv.n, recv.len, recv.bytes
 //@   define N0 = old(sent.n)
 //@   define B = sent.bytes[N0]
@@ -322,6 +348,8 @@ package uhppote
 //@   params u, deviceID, enable
 //@   returns (ok, err)
 //@   requires client: u != nil && u.driver != nil
+//@   attr noaxioms = time.
+//@   attr opaque = bcd.
 //@   modifies sent.n, sent.kind, sent.iplen, sent.ipb, sent.port, sent.bytes, recv.n, recv.len, recv.bytes
 //@   define N0 = old(sent.n)
 //@   define B = sent.bytes[N0]
@@ -337,6 +365,8 @@ package uhppote
 //@   params u, deviceID, enable
 //@   returns (ok, err)
 //@   requires client: u != nil && u.driver != nil
+//@   attr noaxioms = time.
+//@   attr opaque = bcd.
 //@   modifies sent.n, sent.kind, sent.iplen, sent.ipb, sent.port, sent.bytes, recv.n, recv.len, recv.bytes
 //@   define N0 = old(sent.n)
 //@   define B = sent.bytes[N0]
@@ -352,6 +382,8 @@ package uhppote
 //@   params u, controllerID, interlock
 //@   returns (ok, err)
 //@   requires client: u != nil && u.driver != nil
+//@   attr noaxioms = time.
+//@   attr opaque = bcd.
 //@   modifies sent.n, sent.kind, sent.iplen, sent.ipb, sent.port, sent.bytes, recv.n, recv.len, recv.bytes
 //@   define N0 = old(sent.n)
 //@   define B = sent.bytes[N0]
@@ -367,6 +399,8 @@ package uhppote
 //@   params u, deviceID, index
 //@   returns (res, err)
 //@   requires client: u != nil && u.driver != nil
+//@   attr noaxioms = time.
+//@   attr opaque = bcd.
 //@   modifies sent.n, sent.kind, sent.iplen, sent.ipb, sent.port, sent.bytes, recv.n, recv.len, recv.bytes
 //@   define N0 = old(sent.n)
 //@   define B = sent.bytes[N0]
@@ -382,6 +416,8 @@ package uhppote
 //@   params u, serialNumber, door
 //@   returns (res, err)
 //@   requires client: u != nil && u.driver != nil
+//@   attr noaxioms = time.
+//@   attr opaque = bcd.
 //@   modifies sent.n, sent.kind, sent.iplen, sent.ipb, sent.port, sent.bytes, recv.n, recv.len, recv.bytes
 //@   define N0 = old(sent.n)
 //@   define B = sent.bytes[N0]
@@ -397,6 +433,8 @@ package uhppote
 //@   params u, serialNumber, door, state, delay
 //@   returns (res, err)
 //@   requires client: u != nil && u.driver != nil
+//@   attr noaxioms = time.
+//@   attr opaque = bcd.
 //@   modifies sent.n, sent.kind, sent.iplen, sent.ipb, sent.port, sent.bytes, recv.n, recv.len, recv.bytes
 //@   define N0 = old(sent.n)
 //@   define B = sent.bytes[N0]
@@ -412,6 +450,8 @@ package uhppote
 //@   params u, controller, door, passcodes
 //@   returns (ok, err)
 //@   requires client: u != nil && u.driver != nil
+//@   attr noaxioms = time.
+//@   attr opaque = bcd.
 //@   modifies sent.n, sent.kind, sent.iplen, sent.ipb, sent.port, sent.bytes, recv.n, recv.len, recv.bytes
 //@   define N0 = old(sent.n)
 //@   define B = sent.bytes[N0]
@@ -428,6 +468,8 @@ package uhppote
 //@   params u, controller, address, interval
 //@   returns (ok, err)
 //@   requires client: u != nil && u.driver != nil
+//@   attr noaxioms = time.
+//@   attr opaque = bcd.
 //@   modifies sent.n, sent.kind, sent.iplen, sent.ipb, sent.port, sent.bytes, recv.n, recv.len, recv.bytes
 //@   define N0 = old(sent.n)
 //@   define B = sent.bytes[N0]
@@ -444,6 +486,8 @@ package uhppote
 //@   params u, serialNumber, address, mask, gateway
 //@   returns (res, err)
 //@   requires client: u != nil && u.driver != nil
+//@   attr noaxioms = time.
+//@   attr opaque = bcd.
 //@   modifies sent.n, sent.kind, sent.iplen, sent.ipb, sent.port, sent.bytes, recv.n, recv.len, recv.bytes
 //@   define N0 = old(sent.n)
 //@   define B = sent.bytes[N0]
@@ -458,6 +502,8 @@ package uhppote
 //@   params u, serialNumber
 //@   returns (addr, interval, err)
 //@   requires client: u != nil && u.driver != nil
+//@   attr noaxioms = time.
+//@   attr opaque = bcd.
 //@   modifies sent.n, sent.kind, sent.iplen, sent.ipb, sent.port, sent.bytes, recv.n, recv.len, recv.bytes
 //@   define N0 = old(sent.n)
 //@   define B = sent.bytes[N0]
@@ -473,6 +519,8 @@ package uhppote
 //@   params u, deviceID, index
 //@   returns (res, err)
 //@   requires client: u != nil && u.driver != nil
+//@   attr noaxioms = time.
+//@   attr opaque = bcd.
 //@   modifies sent.n, sent.kind, sent.iplen, sent.ipb, sent.port, sent.bytes, recv.n, recv.len, recv.bytes
 //@   define N0 = old(sent.n)
 //@   define B = sent.bytes[N0]
@@ -481,13 +529,15 @@ package uhppote
 //@   ensures once:   !(deviceID == 0) ==> sent.n == N0 + 1
 //@   ensures wire:   !(deviceID == 0) ==> wire.header(B, 0xb0, deviceID) && wire.u32(B, 8) == index && wire.zero(B, 12, 64)
 //@   ensures route:  !(deviceID == 0) ==> routed(u, deviceID, N0)
-//@   ensures accept: err == nil ==> accepted(N0, 0xb0, deviceID) && R[13] <= 1 && R[12] != 255
-//@   ensures result: err == nil ==> (wire.u32(R, 8) == 0 ==> res == nil) && (wire.u32(R, 8) != 0 ==> res != nil && res.SerialNumber == deviceID && res.Index == wire.u32(R, 8) && res.Type == R[12] && (res.Granted <==> R[13] == 1) && res.Door == R[14] && res.Direction == R[15] && res.CardNumber == wire.u32(R, 16) && res.Reason == R[27])
+//@   ensures accept: err == nil ==> accepted(N0, 0xb0, deviceID) && R[13] <= 1 && R[12] != 255 && wire.rdtOK(R, 20)
+//@   ensures result: err == nil ==> (wire.u32(R, 8) == 0 ==> res == nil) && (wire.u32(R, 8) != 0 ==> res != nil && res.SerialNumber == deviceID && res.Index == wire.u32(R, 8) && res.Type == R[12] && (res.Granted <==> R[13] == 1) && res.Door == R[14] && res.Direction == R[15] && res.CardNumber == wire.u32(R, 16) && res.Reason == R[27] && wire.rdatetime(R, 20, res.Timestamp.abs, res.Timestamp.ns, res.Timestamp.loc))
 
 //@ func (*uhppote).GetCardByIndex
 //@   params u, deviceID, index
 //@   returns (res, err)
 //@   requires client: u != nil && u.driver != nil
+//@   attr noaxioms = time.
+//@   attr opaque = bcd.
 //@   modifies sent.n, sent.kind, sent.iplen, sent.ipb, sent.port, sent.bytes, recv.n, recv.len, recv.bytes
 //@   define N0 = old(sent.n)
 //@   define B = sent.bytes[N0]
@@ -496,13 +546,15 @@ package uhppote
 //@   ensures once:   !(deviceID == 0) ==> sent.n == N0 + 1
 //@   ensures wire:   !(deviceID == 0) ==> wire.header(B, 0x5c, deviceID) && wire.u32(B, 8) == index && wire.zero(B, 12, 64)
 //@   ensures route:  !(deviceID == 0) ==> routed(u, deviceID, N0)
-//@   ensures accept: err == nil ==> accepted(N0, 0x5c, deviceID)
-//@   ensures result: err == nil ==> ((wire.u32(R, 8) == 0 || wire.u32(R, 8) == 4294967295) ==> res == nil) && (wire.u32(R, 8) != 0 && wire.u32(R, 8) != 4294967295 ==> res != nil && res.CardNumber == wire.u32(R, 8) && res.Doors != nil && fresh(res.Doors) && res.Doors[1] == R[20] && res.Doors[2] == R[21] && res.Doors[3] == R[22] && res.Doors[4] == R[23] && res.PIN == wire.u24(R, 24))
+//@   ensures accept: err == nil ==> accepted(N0, 0x5c, deviceID) && wire.bcdok(R, 12, 8)
+//@   ensures result: err == nil ==> ((wire.u32(R, 8) == 0 || wire.u32(R, 8) == 4294967295) ==> res == nil) && (wire.u32(R, 8) != 0 && wire.u32(R, 8) != 4294967295 ==> res != nil && res.CardNumber == wire.u32(R, 8) && res.Doors != nil && fresh(res.Doors) && res.Doors[1] == R[20] && res.Doors[2] == R[21] && res.Doors[3] == R[22] && res.Doors[4] == R[23] && res.PIN == wire.u24(R, 24) && wire.rdate(R, 12, res.From.abs, res.From.ns, res.From.loc) && wire.rdate(R, 16, res.To.abs, res.To.ns, res.To.loc))
 
 //@ func (*uhppote).GetCardByID
 //@   params u, deviceID, cardNumber
 //@   returns (res, err)
 //@   requires client: u != nil && u.driver != nil
+//@   attr noaxioms = time.
+//@   attr opaque = bcd.
 //@   modifies sent.n, sent.kind, sent.iplen, sent.ipb, sent.port, sent.bytes, recv.n, recv.len, recv.bytes
 //@   define N0 = old(sent.n)
 //@   define B = sent.bytes[N0]
@@ -511,13 +563,15 @@ package uhppote
 //@   ensures once:   !(deviceID == 0) ==> sent.n == N0 + 1
 //@   ensures wire:   !(deviceID == 0) ==> wire.header(B, 0x5a, deviceID) && wire.u32(B, 8) == cardNumber && wire.zero(B, 12, 64)
 //@   ensures route:  !(deviceID == 0) ==> routed(u, deviceID, N0)
-//@   ensures accept: err == nil ==> accepted(N0, 0x5a, deviceID) && (wire.u32(R, 8) == 0 || wire.u32(R, 8) == cardNumber)
-//@   ensures result: err == nil ==> (wire.u32(R, 8) == 0 ==> res == nil) && (wire.u32(R, 8) != 0 ==> res != nil && res.CardNumber == wire.u32(R, 8) && res.Doors != nil && fresh(res.Doors) && res.Doors[1] == R[20] && res.Doors[2] == R[21] && res.Doors[3] == R[22] && res.Doors[4] == R[23] && res.PIN == wire.u24(R, 24))
+//@   ensures accept: err == nil ==> accepted(N0, 0x5a, deviceID) && (wire.u32(R, 8) == 0 || wire.u32(R, 8) == cardNumber) && wire.bcdok(R, 12, 8)
+//@   ensures result: err == nil ==> (wire.u32(R, 8) == 0 ==> res == nil) && (wire.u32(R, 8) != 0 ==> res != nil && res.CardNumber == wire.u32(R, 8) && res.Doors != nil && fresh(res.Doors) && res.Doors[1] == R[20] && res.Doors[2] == R[21] && res.Doors[3] == R[22] && res.Doors[4] == R[23] && res.PIN == wire.u24(R, 24) && wire.rdate(R, 12, res.From.abs, res.From.ns, res.From.loc) && wire.rdate(R, 16, res.To.abs, res.To.ns, res.To.loc))
 
 //@ func (*uhppote).PutCard
 //@   params u, deviceID, card, formats
 //@   returns (ok, err)
 //@   requires client: u != nil && u.driver != nil
+//@   attr noaxioms = time.
+//@   attr opaque = bcd.
 //@   modifies sent.n, sent.kind, sent.iplen, sent.ipb, sent.port, sent.bytes, recv.n, recv.len, recv.bytes
 //@   define N0 = old(sent.n)
 //@   define B = sent.bytes[N0]
@@ -534,6 +588,8 @@ package uhppote
 //@   params u, deviceID, profileID
 //@   returns (res, err)
 //@   requires client: u != nil && u.driver != nil
+//@   attr noaxioms = time.
+//@   attr opaque = bcd.
 //@   modifies sent.n, sent.kind, sent.iplen, sent.ipb, sent.port, sent.bytes, recv.n, recv.len, recv.bytes
 //@   define N0 = old(sent.n)
 //@   define B = sent.bytes[N0]
@@ -542,13 +598,15 @@ package uhppote
 //@   ensures once:   !(deviceID == 0) ==> sent.n == N0 + 1
 //@   ensures wire:   !(deviceID == 0) ==> wire.header(B, 0x98, deviceID) && B[8] == profileID && wire.zero(B, 9, 64)
 //@   ensures route:  !(deviceID == 0) ==> routed(u, deviceID, N0)
-//@   ensures accept: err == nil ==> accepted(N0, 0x98, deviceID) && (R[8] == 0 || R[8] == profileID)
-//@   ensures result: err == nil ==> (R[8] == 0 ==> res == nil) && (R[8] != 0 ==> res != nil && res.ID == R[8] && res.LinkedProfileID == R[36])
+//@   ensures accept: err == nil ==> accepted(N0, 0x98, deviceID) && (R[8] == 0 || R[8] == profileID) && wire.bcdok(R, 9, 8) && R[17] <= 1 && R[18] <= 1 && R[19] <= 1 && R[20] <= 1 && R[21] <= 1 && R[22] <= 1 && R[23] <= 1
+//@   ensures result: err == nil ==> (R[8] == 0 ==> res == nil) && (R[8] != 0 ==> res != nil && res.ID == R[8] && res.LinkedProfileID == R[36] && wire.rdate(R, 9, res.From.abs, res.From.ns, res.From.loc) && wire.rdate(R, 13, res.To.abs, res.To.ns, res.To.loc) && res.Weekdays != nil && fresh(res.Weekdays) && res.Segments != nil && fresh(res.Segments) && (res.Weekdays[1] <==> R[17] == 1) && (res.Weekdays[2] <==> R[18] == 1) && (res.Weekdays[3] <==> R[19] == 1) && (res.Weekdays[4] <==> R[20] == 1) && (res.Weekdays[5] <==> R[21] == 1) && (res.Weekdays[6] <==> R[22] == 1) && (res.Weekdays[0] <==> R[23] == 1) && (wire.rhhmmOK(R, 24) ? wire.rhhmm(R, 24, res.Segments[1].Start.hours, res.Segments[1].Start.minutes) : (res.Segments[1].Start.hours == 0 && res.Segments[1].Start.minutes == 0)) && (wire.rhhmmOK(R, 26) ? wire.rhhmm(R, 26, res.Segments[1].End.hours, res.Segments[1].End.minutes) : (res.Segments[1].End.hours == 0 && res.Segments[1].End.minutes == 0)) && (wire.rhhmmOK(R, 28) ? wire.rhhmm(R, 28, res.Segments[2].Start.hours, res.Segments[2].Start.minutes) : (res.Segments[2].Start.hours == 0 && res.Segments[2].Start.minutes == 0)) && (wire.rhhmmOK(R, 30) ? wire.rhhmm(R, 30, res.Segments[2].End.hours, res.Segments[2].End.minutes) : (res.Segments[2].End.hours == 0 && res.Segments[2].End.minutes == 0)) && (wire.rhhmmOK(R, 32) ? wire.rhhmm(R, 32, res.Segments[3].Start.hours, res.Segments[3].Start.minutes) : (res.Segments[3].Start.hours == 0 && res.Segments[3].Start.minutes == 0)) && (wire.rhhmmOK(R, 34) ? wire.rhhmm(R, 34, res.Segments[3].End.hours, res.Segments[3].End.minutes) : (res.Segments[3].End.hours == 0 && res.Segments[3].End.minutes == 0)))
 
 //@ func (*uhppote).SetTimeProfile
 //@   params u, deviceID, profile
 //@   returns (ok, err)
 //@   requires client: u != nil && u.driver != nil
+//@   attr noaxioms = time.
+//@   attr opaque = bcd.
 //@   modifies sent.n, sent.kind, sent.iplen, sent.ipb, sent.port, sent.bytes, recv.n, recv.len, recv.bytes
 //@   define N0 = old(sent.n)
 //@   define B = sent.bytes[N0]
@@ -565,6 +623,8 @@ package uhppote
 //@   params u, serialNumber
 //@   returns (res, err)
 //@   requires client: u != nil && u.driver != nil
+//@   attr noaxioms = time.
+//@   attr opaque = bcd.
 //@   modifies sent.n, sent.kind, sent.iplen, sent.ipb, sent.port, sent.bytes, recv.n, recv.len, recv.bytes
 //@   define N0 = old(sent.n)
 //@   define B = sent.bytes[N0]
@@ -573,13 +633,15 @@ package uhppote
 //@   ensures once:   !(serialNumber == 0) ==> sent.n == N0 + 1
 //@   ensures wire:   !(serialNumber == 0) ==> wire.header(B, 0x94, serialNumber) && wire.zero(B, 8, 64)
 //@   ensures route:  !(serialNumber == 0) ==> routed(u, serialNumber, N0)
-//@   ensures accept: err == nil ==> accepted(N0, 0x94, serialNumber)
-//@   ensures result: err == nil ==> res != nil && res.SerialNumber == serialNumber && res.Version == 256 * R[26] + R[27] && len(res.IpAddress) == 16 && res.IpAddress[12] == R[8] && res.IpAddress[15] == R[11] && len(res.MacAddress) == 6 && res.MacAddress[0] == R[20] && res.MacAddress[5] == R[25]
+//@   ensures accept: err == nil ==> accepted(N0, 0x94, serialNumber) && wire.bcdok(R, 28, 4)
+//@   ensures result: err == nil ==> res != nil && res.SerialNumber == serialNumber && res.Version == 256 * R[26] + R[27] && len(res.IpAddress) == 16 && res.IpAddress[12] == R[8] && res.IpAddress[13] == R[9] && res.IpAddress[14] == R[10] && res.IpAddress[15] == R[11] && len(res.SubnetMask) == 16 && res.SubnetMask[12] == R[12] && res.SubnetMask[13] == R[13] && res.SubnetMask[14] == R[14] && res.SubnetMask[15] == R[15] && len(res.Gateway) == 16 && res.Gateway[12] == R[16] && res.Gateway[13] == R[17] && res.Gateway[14] == R[18] && res.Gateway[15] == R[19] && len(res.MacAddress) == 6 && res.MacAddress[0] == R[20] && res.MacAddress[1] == R[21] && res.MacAddress[2] == R[22] && res.MacAddress[3] == R[23] && res.MacAddress[4] == R[24] && res.MacAddress[5] == R[25] && wire.rdate(R, 28, res.Date.abs, res.Date.ns, res.Date.loc)
 
 //@ func (*uhppote).GetStatus
 //@   params u, serialNumber
 //@   returns (res, err)
 //@   requires client: u != nil && u.driver != nil
+//@   attr noaxioms = time.
+//@   attr opaque = bcd.
 //@   modifies sent.n, sent.kind, sent.iplen, sent.ipb, sent.port, sent.bytes, recv.n, recv.len, recv.bytes
 //@   define N0 = old(sent.n)
 //@   define B = sent.bytes[N0]
@@ -588,7 +650,18 @@ package uhppote
 //@   ensures once:   !(serialNumber == 0) ==> sent.n == N0 + 1
 //@   ensures wire:   !(serialNumber == 0) ==> wire.header(B, 0x20, serialNumber) && wire.zero(B, 8, 64)
 //@   ensures route:  !(serialNumber == 0) ==> routed(u, serialNumber, N0)
-//@   ensures accept: err == nil ==> accepted(N0, 0x20, serialNumber)
-//@   ensures result: err == nil ==> res != nil && res.SerialNumber == serialNumber && res.SystemError == R[36] && res.SequenceId == wire.u32(R, 40) && res.SpecialInfo == R[48] && res.RelayState == R[49] && res.InputState == R[50] && (res.DoorState[1] <==> R[28] == 1) && (res.DoorState[2] <==> R[29] == 1) && (res.DoorState[3] <==> R[30] == 1) && (res.DoorState[4] <==> R[31] == 1) && (res.DoorButton[1] <==> R[32] == 1) && (res.DoorButton[2] <==> R[33] == 1) && (res.DoorButton[3] <==> R[34] == 1) && (res.DoorButton[4] <==> R[35] == 1) && (wire.u32(R, 8) == 0 ==> res.Event.Index == 0 && res.Event.Type == 0 && res.Event.CardNumber == 0 && res.Event.Timestamp.abs == 0) && (wire.u32(R, 8) != 0 ==> res.Event.Index == wire.u32(R, 8) && res.Event.Type == R[12] && (res.Event.Granted <==> R[13] == 1) && res.Event.Door == R[14] && res.Event.Direction == R[15] && res.Event.CardNumber == wire.u32(R, 16) && res.Event.Reason == R[27])
+//@   ensures accept: err == nil ==> accepted(N0, 0x20, serialNumber) && R[13] <= 1 && R[28] <= 1 && R[29] <= 1 && R[30] <= 1 && R[31] <= 1 && R[32] <= 1 && R[33] <= 1 && R[34] <= 1 && R[35] <= 1 && wire.rdtOK(R, 20)
+//@   ensures result: err == nil ==> res != nil && res.SerialNumber == serialNumber && res.SystemError == R[36] && res.SequenceId == wire.u32(R, 40) && res.SpecialInfo == R[48] && res.RelayState == R[49] && res.InputState == R[50] && (res.DoorState[1] <==> R[28] == 1) && (res.DoorState[2] <==> R[29] == 1) && (res.DoorState[3] <==> R[30] == 1) && (res.DoorState[4] <==> R[31] == 1) && (res.DoorButton[1] <==> R[32] == 1) && (res.DoorButton[2] <==> R[33] == 1) && (res.DoorButton[3] <==> R[34] == 1) && (res.DoorButton[4] <==> R[35] == 1) && (wire.u32(R, 8) == 0 ==> res.Event.Index == 0 && res.Event.Type == 0 && res.Event.CardNumber == 0 && res.Event.Timestamp.abs == 0) && (wire.u32(R, 8) != 0 ==> res.Event.Index == wire.u32(R, 8) && res.Event.Type == R[12] && (res.Event.Granted <==> R[13] == 1) && res.Event.Door == R[14] && res.Event.Direction == R[15] && res.Event.CardNumber == wire.u32(R, 16) && res.Event.Reason == R[27] && wire.rdatetime(R, 20, res.Event.Timestamp.abs, res.Event.Timestamp.ns, res.Event.Timestamp.loc))
 
 // ---- GENERATED: end ----
+
+// ---- thin safety contracts for the run-time-check sweep (C04) --------------------------------
+// "callbacks and channels non-nil" (property C04): the listener is a non-nil interface value
+
+//@ func (*uhppote).Listen
+//@   params u, listener, q
+//@   requires client: u != nil && u.driver != nil && listener != nil
+
+//@ func (*uhppote).listen
+//@   params u, p, q, listener
+//@   requires client: u != nil && u.driver != nil && listener != nil
